@@ -1,5 +1,6 @@
 (* Corr/C06.v — checking has no effects and soundly approximates opening. *)
 From Verif Require Import Base.Bytes Base.Wire Model.Chain Model.Eval Corr.EvalWire.
+From Verif Require Corr.C06Schema.     (* the schema clause: check's Environment.Schema accepts the opened value (vspec) *)
 
 Record case := {
   c_name : string; c_def : envdef; c_world : world;     (* the world's own mode flags are ignored *)
@@ -91,7 +92,7 @@ Definition spec_fail_known (c : case) : bool := spec_fail c && known c.
 Definition nontrivial (c : case) : bool :=
   match c_open c with IObs _ _ lg => has_open lg || has_decrypt lg | _ => false end.
 
-Definition decode (x : sexp) : option case :=
+Definition decode_main (x : sexp) : option case :=
   match x with
   | SList [Atom "c06"; n; d; w; o1; o2; o3] =>
       match atom_str n, dec_envdef d, dec_world w with
@@ -106,7 +107,33 @@ Definition decode (x : sexp) : option case :=
   | _ => None
   end.
 
-Definition verdict (c : case) : N :=
+Definition verdict_main (c : case) : N :=
   verdict_bits (mismatch c) (spec_fail_new c) (spec_fail_known c) (nontrivial c).
+
+(* dispatch: the main line may carry the schema part (Corr/C06Schema.v) as an eighth element; the other line kinds
+   (schema-only cases, classification and model-vs-implementation measurements) are decoded there *)
+Inductive anycase := CMain (c : case) (s : option C06Schema.scase) | COther (o : C06Schema.ocase).
+
+Definition decode (x : sexp) : option anycase :=
+  match x with
+  | SList [Atom "c06"; _; _; _; _; _; _] => option_map (fun c => CMain c None) (decode_main x)
+  | SList [Atom "c06"; n; d; w; o1; o2; o3; s] =>
+      match decode_main (SList [Atom "c06"; n; d; w; o1; o2; o3]), C06Schema.dec_scase s with
+      | Some c, Some s' => Some (CMain c (Some s'))
+      | _, _ => None
+      end
+  | _ => option_map COther (C06Schema.decode_other x)
+  end.
+
+Definition verdict (a : anycase) : N :=
+  match a with
+  | CMain c None => verdict_main c
+  | CMain c (Some s) =>
+      let ds := defs_of c in
+      verdict_bits (mismatch c || C06Schema.sch_mismatch (c_world c) (c_name c) (c_def c) s)
+                   (spec_fail_new c || C06Schema.fail_new ds s) (spec_fail_known c || C06Schema.fail_known ds s)
+                   (nontrivial c || C06Schema.decided s)
+  | COther o => C06Schema.verdict_other o
+  end.
 
 Definition run_line : string -> string := run_with decode verdict.
